@@ -13,8 +13,10 @@ Fixpoint zrange (from : Z) (n : nat) : list Z := match n with O => [] | S k => f
 Definition mkset (hist : list (list bytes)) (clen : Z) (enil : bool) (i : Z) : gset :=
   if i <? clen then {| g_index := i; g_keys := Some (nth (Z.to_nat i) hist []) |}
   else {| g_index := i; g_keys := if enil then None else Some [] |}.
+(* getGuardianSetsRange against the simulated contract: the range is capped at the contract's current index (clen - 1) iff the tree says so *)
 Definition mkchain hist clen enil (fail : bool) (from to : Z) : option (list gset) :=
-  if fail then None else Some (map (mkset hist clen enil) (zrange from (Z.to_nat (to - from + 1)))).
+  let to' := if explorer_range_capped then Z.min to (clen - 1) else to in
+  if fail then None else Some (map (mkset hist clen enil) (zrange from (Z.to_nat (to' - from + 1)))).
 Definition nkeys (g : gset) : Z := match g_keys g with None => -1 | Some l => Z.of_nat (length l) end.
 Fixpoint zl_eqb (a b : list Z) : bool :=
   match a, b with [] , [] => true | x :: a', y :: b' => (x =? y) && zl_eqb a' b' | _, _ => false end.
@@ -203,6 +205,9 @@ def run(ctx):
     frows = [r for r in allsets if r.get("k") == "sets-fault"]
     monitor(ctx, frows, "sets-fault")
     ctx.cov["store_fault_scenarios"] = len(frows)
+    urows = [r for r in allsets if r.get("k") == "sets-future"]
+    monitor(ctx, urows, "sets-future")
+    ctx.cov["store_future_index_scenarios"] = len(urows)
     if rc != 0 or not rows:
         ctx.problem("correspondence", "go harness C19 (guardiansets)", out[-1500:])
     else:
@@ -313,7 +318,7 @@ def run(ctx):
         "granularity is covered by the race detector run, not by the proof",
         "the explorer links github.com/alephium/wormhole-fork/node from the module cache (version pinned in explorer-backend/go.mod), not /repo/node: the extractor compares its CalculateQuorum and VerifySignatures with the tree's",
         "deduplicator cache in the harness: patrickmn/go-cache (synchronous); production uses ristretto, whose Set is asynchronous and lossy (a lost mark only lets a duplicate through)",
-        "recorded, not claimed as a violation: a lookup of an index the chain does not have yet stores the empty key lists Ethereum answers for unknown indices (such VAAs are rejected; the real set with that index is then never learned)",
+        "getGuardianSetsRange is modelled over the two contract calls (model/ExplorerRange.v): the cap at the contract's current index is read from the tree (explorer_range_capped); that Getters.sol getGuardianSet answers an unknown index with the empty set is read from the contract source (plain mapping read), go-ethereum's ABI decoding of that answer is exercised through the simulated node, not modelled",
     ]
     if st:
         ctx.cov["store_locking"] = st
@@ -334,6 +339,8 @@ def monitor(ctx, rows, what):
                 cls = "panic:" + what
             elif "returned the set with index" in m:
                 cls = "lookup:wrong-set"
+            elif "looked up once while the chain only had" in m:
+                cls = "lookup:future-index-stored-empty"
             if cls in seen:
                 continue
             seen[cls] = 1
